@@ -23,8 +23,8 @@ def run(ctx):
     #    threshold-boundary schedules
     bftcommon.binding_demo(ctx)
     stats = []
-    scen = "sync,async,async-restart,byz,equivocate,boundary,posweights,posforks,transition,doublevote,stalefork,stalepack,votelater"
-    stats += bftcommon.record_and_validate(ctx, scen, 52 if q else 910, 36, "c03-mixed")
+    scen = "sync,async,async-restart,byz,equivocate,boundary,capped,posweights,posforks,transition,doublevote,stalefork,stalepack,votelater"
+    stats += bftcommon.record_and_validate(ctx, scen, 56 if q else 980, 36, "c03-mixed")
     stats += bftcommon.record_and_validate(ctx, "byz,equivocate", 6 if q else 200, 60, "c03-long", seed_offset=7)
     # 3. model -> implementation: TLC-sampled schedules of BFT.tla executed on the real nodes
     stats += bftcommon.replay_schedules(ctx, 25 if q else 600)
